@@ -106,7 +106,7 @@ class SimA:
     def enabled(self):
         if self.w.c.connection_state.value <= 3:
             return []
-        return [("in", k) for k in INBOUND_A] + [("send", "app")]
+        return [("in", k) for k in INBOUND_A] + [("send", "app"), ("send", "bad")]
 
     def key(self):
         c = self.w.c
@@ -236,7 +236,9 @@ class SimA:
         from asyncfix import FIXMessage
 
         if ev[0] == "send":
-            w.send(FIXMessage("D", {11: f"s{self.uid}"}))
+            # "bad": a message that cannot be put on the wire (text not encodable as utf-8) - whatever the send call
+            # answers, the counters a restart comes back with are those of the live object
+            w.send(FIXMessage("D", {11: f"s{self.uid}", 58: "bad \udc80 text"} if ev[1] == "bad" else {11: f"s{self.uid}"}))
         else:
             k = ev[1]
             E = num_in(c)
